@@ -20,6 +20,8 @@ pub enum Route {
     Site,
     PluralCardinal,
     PluralOrdinal,
+    /// `t_format!` view on a reactive context, rendered under two successive locales
+    CtxView,
 }
 
 impl Route {
@@ -30,6 +32,7 @@ impl Route {
             Route::Site => "site",
             Route::PluralCardinal => "plural_cardinal",
             Route::PluralOrdinal => "plural_ordinal",
+            Route::CtxView => "ctx_view",
         }
     }
     fn from_name(s: &str) -> Option<Route> {
@@ -39,6 +42,7 @@ impl Route {
             "site" => Route::Site,
             "plural_cardinal" => Route::PluralCardinal,
             "plural_ordinal" => Route::PluralOrdinal,
+            "ctx_view" => Route::CtxView,
             _ => return None,
         })
     }
@@ -58,7 +62,7 @@ impl Op {
     pub fn to_json(&self) -> Value {
         let what = match self.route {
             Route::KeyString | Route::KeyView => KEYS[self.idx].text.trim().to_string(),
-            Route::Site => SITES[self.idx].text.to_string(),
+            Route::Site | Route::CtxView => SITES[self.idx].text.to_string(),
             _ => String::new(),
         };
         json!({"route": self.route.name(), "idx": self.idx, "locale": LOCALES[self.locale], "val": self.val, "formatter": what})
@@ -74,9 +78,13 @@ impl Op {
     fn spec(&self) -> Option<Spec> {
         match self.route {
             Route::KeyString | Route::KeyView => Some(KEYS[self.idx].spec),
-            Route::Site => Some(SITES[self.idx].spec),
+            Route::Site | Route::CtxView => Some(SITES[self.idx].spec),
             _ => None,
         }
+    }
+    /// second locale of a `CtxView` operation
+    pub fn locale2(&self) -> usize {
+        (self.locale + 1 + self.val) % LOCALES.len()
     }
     /// identity of the cache slot this operation needs
     fn slot(&self) -> String {
@@ -165,7 +173,7 @@ pub fn generate(rng: &mut Rng, with_faults: bool) -> Plan {
                     } else if r < 7 {
                         Op { route: Route::KeyView, idx: *rng.pick(&key_pool), locale, val: rng.below(n_vals) }
                     } else {
-                        Op { route: Route::Site, idx: *rng.pick(&site_pool), locale, val: rng.below(n_vals) }
+                        Op { route: if rng.chance(1, 3) { Route::CtxView } else { Route::Site }, idx: *rng.pick(&site_pool), locale, val: rng.below(n_vals) }
                     }
                 }
             }
@@ -240,6 +248,23 @@ fn exec_op(op: &Op, vals: &[Val]) -> String {
         Route::KeyString => fixture_table::call_key_string(op.idx, loc, &vals[op.val]),
         Route::KeyView => fixture_table::call_key_view(op.idx, loc, &vals[op.val]),
         Route::Site => fixture_table::call_site(op.idx, loc, &vals[op.val]),
+        Route::CtxView => {
+            use leptos::prelude::*;
+            use leptos_i18n::context::{init_i18n_context_with_options, I18nContextOptions, UseLocalesOptions};
+            let owner = Owner::new();
+            let out = owner.with(|| {
+                let opts = I18nContextOptions::<Locale>::default().enable_cookie(false).ssr_lang_header_getter(UseLocalesOptions::default().ssr_lang_header_getter(|| Some(String::new())));
+                let i18n = init_i18n_context_with_options(opts);
+                i18n.set_locale(loc);
+                let view = fixture_table::call_site_ctx(op.idx, i18n, op.val);
+                let first = view();
+                i18n.set_locale(locale_of(op.locale2()));
+                let second = view();
+                format!("{first}\u{1}{second}")
+            });
+            owner.cleanup();
+            out
+        }
         Route::PluralCardinal => fixture_table::call_plural(false, loc, COUNTS[op.val]),
         Route::PluralOrdinal => fixture_table::call_plural(true, loc, COUNTS[op.val]),
     }
@@ -260,6 +285,13 @@ pub fn expected(op: &Op, vals: &[Val]) -> Result<String, String> {
         // that is Leptos' HTML rendering, not the formatter's output
         Route::KeyView => fixture::reference(KEYS[op.idx].spec, loc, &vals[op.val]).map(|s| if s.is_empty() { format!("{loc}| ") } else { format!("{loc}|{s}") }),
         Route::Site => fixture::reference(SITES[op.idx].spec, loc, &vals[op.val]),
+        Route::CtxView => {
+            let view = |l: &str| fixture::reference(SITES[op.idx].spec, l, &vals[op.val]).map(|s| if s.is_empty() { " ".to_string() } else { s });
+            match (view(loc), view(LOCALES[op.locale2()])) {
+                (Ok(a), Ok(b)) => Ok(format!("{a}\u{1}{b}")),
+                (Err(e), _) | (_, Err(e)) => Err(e),
+            }
+        }
         Route::PluralCardinal => fixture::reference_plural(false, loc, COUNTS[op.val]),
         Route::PluralOrdinal => fixture::reference_plural(true, loc, COUNTS[op.val]),
     };
